@@ -4,6 +4,7 @@ from __future__ import annotations
 import collections
 
 import common as C
+import re_probes as RP
 import engine_common as E
 import engine_extract
 import replay_common as R
@@ -77,6 +78,7 @@ def run(ctx, model=True):
     for k, v in STATS.items():
         res.count(k, v)
     res.rule += " | C04: plans mix checkpoints at varying spacing, clear_checkpoint, rewindable regions, stage/unstage, monitors, run boundaries (two runs in a row, run keys), pause messages; half of the plans are swept with one pause / suspension (pre/post plans) at EVERY arrival index, the others get 1-4 interruptions; pausable motor with NoReplayAllowed"
+    RP.add_to(res, ["replayed-group"])
     return res
 
 
@@ -85,4 +87,7 @@ def run_impl_only(ctx):
 
 
 def replay(ctx, data):
+    r = RP.replay(data)
+    if r is not None:
+        return r
     return E.replay_property(ctx, data, oracle)
